@@ -51,10 +51,13 @@ func c16Defs(obj string, xQuery, xEnum, xUnion, xInput, xIface bool) (base []str
 		ifc += " y: Int"
 	}
 	ifc += " }"
-	ob := "type " + obj + " implements I { x: Int @d y: Int @d(n: 2) q: Query w: Int @d(n: null) }"
+	// (y carries two directive uses: with @d from an earlier load and @e from
+	// the same document as the use, every resolution state meets on one member)
+	ob := "type " + obj + " implements I { x: Int @d y: Int @d(n: 2) @e q: Query w: Int @d(n: null) v: Int @e @d }"
 	dir := "directive @d(n: Int = 5) on FIELD_DEFINITION"
+	dir2 := "directive @e(s: String = \"z\") on FIELD_DEFINITION"
 	// dependency order: the first `closed` definitions only refer to each other
-	base = []string{dir, en, in, ifc, ob, q, un}
+	base = []string{dir, en, in, ifc, ob, q, un, dir2}
 	return base, 4, extends
 }
 
@@ -136,7 +139,7 @@ func c16Load(docs []string) *c16Obs {
 	}
 	sym.MapOrder(false) // (the observation code below ranges over maps of its own)
 	o := &c16Obs{}
-	o.desc, _ = fillDirDefaults(root, descSchema(root, "d")).(map[string]interface{})
+	o.desc, _ = fillDirDefaults(root, descSchema(root, "d", "e")).(map[string]interface{})
 	o.intro = root.ResolveString(c14Introspection, "", nil)
 	o.mut = root.ResolveString("mutation{m}", "", nil)
 	return o
